@@ -211,7 +211,8 @@ Proof.
   - intros x Hx. exact Hx.
   - intros s IHs r IHr x Hx. cbn [an_list]. apply IHr. pn. apply IHs. exact Hx.
   - intros x Hx. exact Hx.
-  - intros cp d ft b IHb r IHr x Hx. cbn [an_cases]. apply IHr. apply quiet_visit_case; [exact IHb | exact Hx].
+  - intros cp d ft b IHb r IHr x Hx. cbn [an_cases]. apply IHr. apply quiet_visit_case; [exact IHb|].
+    unfold visit_test. destruct d; pn; exact Hx.
 Qed.
 
 Lemma iget_iset_same m k f : iget (iset m k f) k <> None.
